@@ -123,8 +123,19 @@ def _work(job):
 
 
 def run(chk: Check, owner: str) -> int:
+    explore(chk, owner)
+    return chk.finish("a case = one behaviour of MC_UniLp (BFS spanning-tree path or simulated behaviour) executed through the real "
+                      "Actuator + UniLpMarket in both token orientations; non-trivial = contains an accepted operation or a bar end")
+
+
+def run_cross(chk: Check, owner: str):
+    """Uniswap leg of the cross-market properties C01 / C03 / C04 (no chk.finish)."""
+    explore(chk, owner, cross=True)
+
+
+def explore(chk: Check, owner: str, cross=False):
     quick = chk.tier == "quick"
-    devs = {"C08": [("lasttick", "P_C08"), ("share", "P_C08")], "C09": []}[owner]
+    devs = {"C08": [("lasttick", "P_C08"), ("share", "P_C08")]}.get(owner, [])
     for dev, prop in devs:
         r = tlc.run(SPEC, MC / f"MC_UniLp_dev_{dev}.cfg", chk.tmp, workers=8, timeout=600)
         chk.extra.setdefault("dev_switch_detected", {})[dev] = prop in r.violated
@@ -140,13 +151,13 @@ def run(chk: Check, owner: str) -> int:
     universe = tlc.printed(res.output, "universe")
     rnd = random.Random(chk.seed)
     paths = g.tree_paths()
-    budget = 1400 if quick else 12000
+    budget = (600 if quick else 5000) if cross else (1400 if quick else 12000)
     chk.exhaustive = len(paths) <= budget
     if len(paths) > budget:
         paths = rnd.sample(paths, budget)
     jobs = [("path", p, i % 4 == 3) for i, p in enumerate(paths)]
     simcfg = "MC_UniLp_sim_fee.cfg" if owner == "C08" else "MC_UniLp_sim.cfg"
-    sres, behs = tlc.simulate(SPEC, MC / simcfg, chk.tmp, num=160 if quick else 3000, depth=12 if quick else 20, seed=chk.seed,
+    sres, behs = tlc.simulate(SPEC, MC / simcfg, chk.tmp, num=(100 if cross else 160) if quick else (1500 if cross else 3000), depth=12 if quick else 20, seed=chk.seed,
                               workers=8, timeout=1500)
     chk.add_tlc(sres, "simulate " + simcfg)
     chk.spec_violation(sres, "simulate")
@@ -173,12 +184,11 @@ def run(chk: Check, owner: str) -> int:
                     chk.count(f"other/{p}/{clause}")
                     if len(chk.extra.setdefault("other_samples", [])) < 6:
                         chk.extra["other_samples"].append({"text": text, "sample": sample})
-    chk.extra["distinct_nontrivial"] = len(nontrivial)
+    chk.extra["distinct_nontrivial"] = chk.extra.get("distinct_nontrivial", 0) + len(nontrivial)
     chk.assumptions += ["orientation B is the mirror of A (ticks negated, ranges mirrored, per-token volumes swapped)",
                         "mirrored fee paths are compared only when no endpoint lies exactly on a range bound (half-open range test)",
                         "bar 0 has no previous bar: its fee path starts at its own close, as in the code"]
-    return chk.finish("a case = one behaviour of MC_UniLp (BFS spanning-tree path or simulated behaviour) executed through the real "
-                      "Actuator + UniLpMarket in both token orientations; non-trivial = contains an accepted operation or a bar end")
+    return None
 
 
 def replay(chk: Check, path: str, owner: str) -> int:
